@@ -4,6 +4,7 @@ import Nsq.Gen.Chan
 the current tree by tools/go2lean (spec specs/e2_chan.json) and compared here with the expected table.
 A code change that alters one of them breaks the corresponding theorem. -/
 namespace Nsq.Tie.Chan
+set_option maxRecDepth 16000
 
 /-- C02: the only function that deletes from `inFlightMessages` is `popInFlightMessage` (plus the re-make in `initPQ`): the pop decides the single winner between FIN / REQ / TOUCH / timeout scan. Model: `finChanPart`, `req`, `touch`, `timeoutOne` all go through `findE … .inflight`. -/
 theorem inFlightWrites_eq : Nsq.Gen.Chan.inFlightWrites = ([
@@ -288,5 +289,38 @@ theorem pushInFlight_eq : Nsq.Gen.Chan.pushInFlight = ([
   "do c.inFlightMutex.Unlock()",
   "assign c.inFlightMessages[msg.ID] = msg",
   "do c.inFlightMutex.Unlock()"] : List String) := by decide
+
+/-- C01 (seeded C01-m5): the channel's disk queue accepts records up to max-msg-size + 26 (`minValidMsgLength`: timestamp, attempts, id) — every body the front ends accept fits when the message overflows to the channel's disk (model: `enqueue` never refuses on a durable channel). -/
+theorem chanBackendNew_eq : Nsq.Gen.Chan.chanBackendNew = ([
+  "assign c.backend = newDummyBackendQueue()",
+  "assign c.backend = diskqueue.New( backendName, nsqd.getOpts().DataPath, nsqd.getOpts().MaxBytesPerFile, int32(minValidMsgLength), int32(nsqd.getOpts().MaxMsgSize)+minValidMsgLength, nsqd.getOpts().SyncEvery, nsqd.getOpts().SyncTimeout, dqLogf, )"] : List String) := by decide
+
+/-- C01: the same bound for the topic's disk queue. -/
+theorem topicBackendNew_eq : Nsq.Gen.Chan.topicBackendNew = ([
+  "assign t.backend = newDummyBackendQueue()",
+  "assign t.backend = diskqueue.New( topicName, nsqd.getOpts().DataPath, nsqd.getOpts().MaxBytesPerFile, int32(minValidMsgLength), int32(nsqd.getOpts().MaxMsgSize)+minValidMsgLength, nsqd.getOpts().SyncEvery, nsqd.getOpts().SyncTimeout, dqLogf, )"] : List String) := by decide
+
+/-- C01 (seeded C01-m6): `queueScanLoop` replaces its cached channel list unconditionally at every refresh tick (model: `scanInFlight` / `scanDeferred` are enabled on every existing channel). -/
+theorem scanRefresh_eq : Nsq.Gen.Chan.scanRefresh = ([
+  "assign channels := n.channels()",
+  "do n.resizePool(len(channels), workCh, responseCh, closeCh)",
+  "assign channels = n.channels()",
+  "do n.resizePool(len(channels), workCh, responseCh, closeCh)"] : List String) := by decide
+
+/-- C03 (seeded C03-m5): when the topic pump leaves its pre-start loop (which swallows pause signals) it arms its sources only if the topic is not paused (model: `pumpTopic` is refused while `paused`, whenever the pause arrived). -/
+theorem topicPumpArm_eq : Nsq.Gen.Chan.topicPumpArm = ([
+  "do <-t.pauseChan",
+  "do <-t.startChan",
+  "if len(chans) > 0 && !t.IsPaused()",
+  "do <-t.pauseChan"] : List String) := by decide
+
+/-- C13 (seeded C13-m6): `GetStats` skips (`continue`) a topic that lacks the filtered channel and goes on with the next one (model `filterSnap`: a filter of the whole snapshot, `render_agree`). -/
+theorem statsFilter_eq : Nsq.Gen.Chan.statsFilter = ([
+  "assign val, exists := n.topicMap[topic]",
+  "stmt return stats",
+  "assign val, exists := t.channelMap[channel]",
+  "assign realChannels = []*Channel{val}",
+  "branch continue",
+  "stmt return stats"] : List String) := by decide
 
 end Nsq.Tie.Chan
